@@ -833,7 +833,7 @@ def run_kb(ck):
             # (clang gives an enumeration wider than int its underlying type under promotion, where the C11
             # text says "unchanged": the identity of a wide enum result is not validated against clang)
             if tw and a[0] != "e":
-                lines.append('_Static_assert(__builtin_types_compatible_p(__typeof__(%s), %s) == %d, "P%d");' % (p.c, cdecl(tw), twv, i))
+                lines.append('_Static_assert(_Generic((%s), %s: 1, default: 0) == %d, "P%d");' % (p.c, cdecl(tw), twv, i))
                 amap[len(lines)] = i
         cpath = os.path.join(d, "v_%s.c" % targ)
         open(cpath, "w").write("\n".join(lines) + "\n")
